@@ -174,6 +174,44 @@ example : compileRequest Ex.reqRules 0xFD = some Ex.cfg2.req ∧ Ex.cfg2.nUp ≤
   · simp only [Ex.reqRules, List.mem_cons, List.mem_nil_iff, or_false] at hx
     rcases hx with rfl | rfl | rfl | rfl <;> decide
 
+/-! ### dae's own look-ups (`daedns.Router`) use the same request rules -/
+
+def decodeDae (o : Nat) : DaeSel := if o == 0xFD || o == 0xFC then .pass else .up o
+
+/-- **dae's own look-ups are routed by the first matching request rule too.** For every look-up of a
+node / subscription host and every query type, `daedns.Router.selectUpstream` picks the upstream named by
+the first DNS request rule that holds for `CanonicalName(host)` and that type (else the fallback);
+`asis` and — code as it is — also `reject` mean "hand the look-up to the base resolver". -/
+theorem daedns_select_is_first_match (cfg : Cfg) (rs : List SrcRule) (fb : Nat) (host : List Char)
+    (qtype : Nat) (rx : List String) (hc : compileRequest rs fb = some cfg.req)
+    (hup : ∀ o, (o = fb ∨ ∃ r ∈ rs, o = r.out) → o < cfg.nUp ∨ o = 0xFC ∨ o = 0xFD)
+    (hn : cfg.nUp ≤ 0xFC) :
+    daednsSelect cfg host qtype rx =
+      decodeDae (firstMatchSrc ⟨canonName host, qtype, [], 0, rx⟩ (splitRequestRules rs) fb) := by
+  have hw : OutsOK rs fb := by
+    constructor
+    · intro r hr; rcases hup r.out (Or.inr ⟨r, hr, rfl⟩) with h | h | h <;> omega
+    · rcases hup fb (Or.inl rfl) with h | h | h <;> omega
+  unfold daednsSelect
+  rw [request_match_is_first_match rs fb cfg.req _ hc hw]
+  have hm := firstMatchSrc_mem ⟨canonName host, qtype, [], 0, rx⟩ (splitRequestRules rs) fb
+  have : firstMatchSrc ⟨canonName host, qtype, [], 0, rx⟩ (splitRequestRules rs) fb < cfg.nUp ∨
+      firstMatchSrc ⟨canonName host, qtype, [], 0, rx⟩ (splitRequestRules rs) fb = 0xFC ∨
+      firstMatchSrc ⟨canonName host, qtype, [], 0, rx⟩ (splitRequestRules rs) fb = 0xFD := by
+    apply hup
+    rcases hm with h | ⟨r, hr, h⟩
+    · exact Or.inl h
+    · exact Or.inr ⟨r, (List.mem_filter.mp hr).1, h⟩
+  generalize firstMatchSrc ⟨canonName host, qtype, [], 0, rx⟩ (splitRequestRules rs) fb = o at this
+  simp only [decodeDae]
+  rcases this with h | h | h
+  · have a : (o == 0xFC) = false := by simp; omega
+    have b : (o == 0xFD) = false := by simp; omega
+    have c : ¬ o ≥ cfg.nUp := by omega
+    simp [a, b, c]
+  · subst h; simp
+  · subst h; simp
+
 /-! ## Clause 3 — answers are routed by the first matching response rule -/
 
 /-- **Response routing is first-match** over name, type, answering upstream and answer addresses. -/
